@@ -1,7 +1,7 @@
 """C18 Generation is deterministic.
 
 Histories of Generate(g) steps: several processes (GOMAXPROCS 1 / 2 / 16, different orders of grammars, repetitions inside one process)
-generate the five shipped grammars and three stress grammars (keywords, lookaheads, mid-rule actions with $-references, categories,
+generate the five shipped grammars, the cc (plain and flex mode) and ts test grammars and three stress grammars (keywords, lookaheads, mid-rule actions with $-references, categories,
 differing nodePrefix); every written file is hashed. The concatenated history is validated by TLC (Gen.tla): the output of a grammar
 is a function of the grammar alone - a history the spec cannot follow deadlocks at the first deviating step - and shipped grammars
 reproduce the committed files.
@@ -19,6 +19,9 @@ def run(ctx):
     thorough = ctx.tier == "thorough"
     cdir = os.path.join(vlib.VERIF, "corpus", "C18")
     stress = ["file:" + os.path.join(cdir, f) for f in sorted(os.listdir(cdir)) if f.endswith(".tm")]
+    # the other targets share package-level template tables with the go target: cc (plain and flex mode) and ts grammars of the repository
+    stress += ["file:" + os.path.join(vlib.REPO, t) for t in ("testing/cpp/json/json.tm", "testing/cpp/json_flex/json.tm", "testing/ts/json/json.tm")
+               if os.path.exists(os.path.join(vlib.REPO, t))]
     shipped = ["shipped:" + s for s in SHIPPED if thorough or "/js/" not in s]
     rnd = random.Random(ctx.seed)
     hist = ctx.path("history.ndjson")
